@@ -234,6 +234,24 @@ def jobs_for(pid, tier, seed):
                       timeout_variants=[None, (None, None, 'pos')], take=False, probe=False))
     else:
         raise KeyError(pid)
+    if pid == 'C12':
+        U = dict(thread_mode=True, fine=True, cancel=False)
+        J.append(ufam('fine interleaving: return / take racing close (1 object out)', ['C12'], 22 if q else 30, tasks=1, ctor='from_vec', initial=1, prefix=(('uget', 'T1', 0),), get_variants=['try_get'], add_variants=[], max_adds=0, ctl=('close',), **U))
+        J.append(ufam('fine interleaving: try_get / get racing close', ['C12'], 20 if q else 28, tasks=1, ctor='from_vec', initial=1, get_variants=['try_get', 'get'], add_variants=[], max_adds=0, ctl=('close',), take=False, **U))
+        J.append(ufam('fine interleaving: try_add / add racing close', ['C12'], 20 if q else 28, tasks=1, get_variants=['try_get'], add_variants=['try_add', 'add'], max_adds=1, ctl=('close',), take=False, **U))
+    if pid == 'C05':
+        J.append(ufam('fine interleaving: try_get / return / take / try_add by 2 threads', ['C05'], 14 if q else 18, tasks=2, ctor='from_vec', initial=1, get_variants=['try_get'], add_variants=['try_add'], max_adds=1,
+                      thread_mode=True, fine=True, cancel=False))
+    if pid == 'C06':
+        M_ = dict(thread_mode=True, fine=True, cancel=False, lifo=False, probe=False, env={'create': ('ok',), 'recycle': ('ok',)})
+        J.append(mfam('fine interleaving: return / take racing close (1 object out)', ['C06'], 26 if q else 34, tasks=1, prefix=(('get', 'T1', 0),), ctl=('close',), max_ctl=1, max_gets=1, **M_))
+        J.append(mfam('fine interleaving: get racing close', ['C06'], 24 if q else 32, tasks=1, ctl=('close',), max_ctl=1, max_gets=1, take=False, max_size_concrete=1, **M_))
+    if pid in ('C01', 'C02'):
+        J.append(mfam('fine interleaving: get racing return / take (max_size 1, 2 threads)', [pid], 24 if q else 32, tasks=2, max_size_concrete=1, prefix=(('get', 'T1', 0),), max_gets=2,
+                      thread_mode=True, fine=True, cancel=False, lifo=False, env={'create': ('ok',), 'recycle': ('ok',)}))
+    if pid == 'C07':
+        J.append(mfam('fine interleaving: return / take racing a shrink (2 objects out)', ['C07'], 22 if q else 30, tasks=2, max_size_concrete=2, prefix=(('get', 'T1', 0), ('get', 'T2', 0)), max_gets=1,
+                      ctl=('resize',), resize_targets=(1,), max_ctl=1, thread_mode=True, fine=True, cancel=False, lifo=False, env={'create': ('ok',), 'recycle': ('ok',)}))
     if pid in ALL_M:
         nv = 2 if q else 8
         for k in range(nv): J.append(vfam(25 if q else 60, k * 1000))
